@@ -20,7 +20,7 @@ for pid, d in sorted(CHECKS.items()):
 m = {
     'version': 1,
     'setup_cmd': 'cd lean && (lake build Lessm driver || (/venv/bin/python ../harness/extract.py && lake build Lessm driver))',
-    'hooks': {'guard': 'LESSCPY_VERIF', 'enable': 'no hooks are needed: the checks observe lesscpy only through lesscpy.compile and python -m lesscpy; the guard variable is set by the harness and read by nothing',
+    'hooks': {'guard': 'LESSCPY_VERIF', 'enable': 'no hooks are needed: the checks observe lesscpy through lesscpy.compile, python -m lesscpy, the lexer and parser objects (translator, front-end correspondence) and, in-process and unmodified, the functions utility.fold_signs, utility.split_unit and Identifier.fmt (correspondence of their models); the guard variable is set by the harness and read by nothing',
               'baseline_off_cmd': 'cd /repo && /venv/bin/python -m pytest -ra -q -p no:cacheprovider --timeout=900 --continue-on-collection-errors',
               'source_commits': [], 'add_only': True},
     'engines': [{'name': 'lean4-model+correspondence', 'path': 'lean/ harness/', 'serves_properties': sorted(CHECKS),
